@@ -24,7 +24,7 @@ func init() {
 			r := c.Rand()
 			cfg := kmodel.AllConfigs[idx%len(kmodel.AllConfigs)]
 			w := map[string]int{"create": 10, "update": 8, "patch": 8, "delete": 5, "deletewhere": 2}
-			runHistory(c, r, histOpts{Prefix: "C03", Cfg: cfg, NTx: 40, MaxOps: 4, Hostile: true, Weights: w})
+			runHistory(c, r, histOpts{Prefix: "C03", FanIn: true, Cfg: cfg, NTx: 40, MaxOps: 4, Hostile: true, Weights: w})
 		},
 		Promises: func(core.Tier) map[string][]string {
 			return map[string][]string{"op_outcome": {"create:ok", "create:dup", "update:ok", "update:dup", "patch:ok", "patch:dup", "delete:ok", "create:reject", "update:notfound"}}
